@@ -310,3 +310,30 @@ def semantic_core(report, invariants, nts=("S", "A"), ts=("a",), maxbody=2, maxr
     out.write_text(json.dumps(fam))
     report.extra["tlc_enumerated_family_size"] = len(fam)
     return str(out)
+
+
+MCA_CFG = """CONSTANTS SRNAME = "Sat3"
+ L = %d
+INIT Init
+NEXT Next
+INVARIANT ClosedFormAgrees
+INVARIANT TotalIsSumOfAll
+INVARIANT ReverseIsReverse
+CHECK_DEADLOCK FALSE
+"""
+
+
+def automata_core(report, L=2):
+    """Model-check the automaton oracles against each other on all two-state automata over {a, eps} and return that
+    family (written out by TLC) for replay into the real code."""
+    d = fresh("afam")
+    f = d / "family.ndjson"
+    res = run_tlc("MCAutomata", MCA_CFG % L, env={"FAMILY_FILE": str(f)}, timeout=3000)
+    if not res.ok or res.left != 0:
+        raise MachineryError("MCAutomata: the automaton oracles disagree with each other (spec-level):\n" + res.errhead)
+    report.add_tlc(res, "MCAutomata: all 2304 two-state automata over {a, eps}: ClosedFormAgrees, TotalIsSumOfAll, ReverseIsReverse")
+    fam = [json.loads(line) for line in open(f)]
+    out = workdir() / f"afamily-{len(fam)}-{_counter[0]}.json"
+    out.write_text(json.dumps(fam))
+    report.extra["tlc_enumerated_automata"] = len(fam)
+    return str(out)
